@@ -15,6 +15,7 @@
   C01 is the property that it never raises.  All other messages need no side condition.
 -/
 import MySensors.Lemmas.SpecTree
+import MySensors.Lemmas.GatewayTraced
 
 namespace MySensors.C04
 
@@ -189,16 +190,53 @@ theorem refines_run_new (c : ConstId) (k : Kind) (p : Bool) (ops : List Op)
 
 /-! ### order of state change and callback
 
-  In the model the callback event is `alert g m`, and what the callback can see is its argument
-  `g`.  `alert` itself only marks the state unsaved; together with `callbacks_exact` and
-  `refines_step` (the tree after the step is the specified one and the callback fired) the
-  remaining clause "the state seen from inside the callback already reflects the message" is a
-  statement about the position of `alert` inside each handler, which the extensional theorems
-  cannot see.  It is decided on the real code by the oracle `callback-before-state` (the tree
-  read from inside the callback equals the tree after the step, every generated and enumerated
-  history). -/
+  In the model the callback event is `alert g m`; what the Python callback can see when it runs
+  is the gateway at that moment, i.e. `alert`'s argument `g`.  The model's output records the
+  message only, so "the state seen from inside the callback already reflects the message" is
+  stated on the instrumented handlers `tstep` (Model/GatewayTraced.lean: the alerting handlers
+  with `alert` replaced by `talert`, which also records `g.persisted`).  `traced_erases` shows the
+  instrumentation is conservative (forgetting the recorded trees gives `step` itself, for every
+  state and op), so the theorem is about the model and not about a second model.  The real code
+  is tied in twice: the oracle `callback-before-state` (tree read from inside the real callback
+  = tree after the step) and the `CBT` correspondence (tree recorded by `tstep` = tree read
+  from inside the real callback). -/
 
-/-- `alert` does not change the tree (so nothing the callback could have seen is undone by it) -/
+/-- forgetting the recorded trees, the instrumented step is the model's step -/
+theorem traced_erases (g : GW) (op : Op) : (tstep g op).1 = step g op := tstep_erase g op
+
+/-- **callback after state**: during any step, exactly one tree is recorded per callback, and
+    every tree a callback sees is already the tree at the end of the step (no state change
+    follows the callback).  No side condition. -/
+theorem callback_after_state (g : GW) (op : Op) :
+    (tstep g op).2.length = (step g op).2.cbs.length ∧
+    ∀ t ∈ (tstep g op).2, t = (step g op).1.persisted := by
+  have h := tstep_good g op
+  unfold Good at h
+  rw [tstep_erase] at h
+  exact h
+
+/-- combined with the refinement: what the callback of an accepted notifying message sees is
+    the specified tree *after* that message -/
+theorem callback_sees_spec (g : GW) (l : Str) (m : Msg) (hd : decode l = some m)
+    (hv : validate g.const m = true)
+    (hx : fallibleFirst g.const m = true → (step g (.line l)).2.exc = none)
+    (hn : specNotifies g.const g.persisted m = true) :
+    (tstep g (.line l)).2 = [specStep g.const g.persisted m] := by
+  obtain ⟨hlen, hall⟩ := callback_after_state g (.line l)
+  rw [callbacks_exact g l m hd hv hx, hn] at hlen
+  rw [refines_step g l m hd hv hx] at hall
+  cases hts : (tstep g (.line l)).2 with
+  | nil => rw [hts] at hlen; simp at hlen
+  | cons t ts =>
+    rw [hts] at hlen hall
+    cases ts with
+    | nil => rw [hall t (by simp)]
+    | cons t2 ts2 => simp at hlen
+
+/-- `alert` itself does not change the tree, and its result does not depend on anything the
+    callback does (the model has no data flow from the callback back into the gateway: the
+    real `alert` swallows whatever the callback raises — decided on the real code by the
+    raising-callback rerun, not by a theorem) -/
 theorem alert_keeps_tree (g : GW) (m : Msg) :
     (alert g m).1.persisted = g.persisted ∧ (alert g m).1.sensors = g.sensors ∧ (alert g m).2.cbs = [m] :=
   ⟨rfl, rfl, rfl⟩
@@ -235,6 +273,11 @@ def histPersist : List Op :=
 example : quiet (newGW .v22 .mqtt true) histPersist = true := by decide +kernel
 example : akeys (run (newGW .v22 .mqtt true) histPersist).persisted = [1, 2] := by decide +kernel
 example : akeys (specRun .v22 true ⟨[], none⟩ histPersist).tree = [1, 2] := by decide +kernel
+
+/-- the callback of the set sees the value already stored -/
+example : (tstep (run (newGW .v20 .base false) (hist20.take 3)) (.line "1;0;1;0;0;20.5\n".toList)).2 =
+    [[(1, ⟨1, [(0, ⟨0, 6, "temp".toList, [(0, "20.5".toList)]⟩)], some 17, none, none, 0, "2.0".toList, 0⟩)]] := by
+  decide +kernel
 
 /-- the hypotheses of the one-step theorems are satisfiable on a non-trivial state -/
 example : ∃ g l m, decode l = some m ∧ validate g.const m = true ∧ fallibleFirst g.const m = true ∧
